@@ -58,7 +58,7 @@ manifest = {
     }],
     "checks": checks,
     "not_applicable": [{"property_id": p, "reason": NOT_YET} for p in ALL if p not in CLAIMED],
-    "notes": "exit 0 = property held on everything explored, 1 = VIOLATION line, 2 = machinery error (build failure, nondeterminism, wall cap) which is never a verdict. Known findings live in /verif/known_findings.txt.",
+    "notes": "hooks are additive (the only rewritten line is the last line of renetcode/Cargo.toml, which lacked a trailing newline). exit 0 = property held on everything explored, 1 = VIOLATION line, 2 = machinery error (build failure, nondeterminism, wall cap) which is never a verdict. Known findings live in /verif/known_findings.txt.",
 }
 json.dump(manifest, open(os.path.join(HERE, "MANIFEST.json"), "w"), indent=1)
 print("wrote MANIFEST.json with", len(checks), "checks;", len(manifest["not_applicable"]), "not claimed")
